@@ -258,6 +258,8 @@ pub struct Exec {
     predicted: BTreeMap<usize, u64>,
     /// failures that do not stop the history (narrowly keyed, see known_findings.json)
     pub soft: Vec<Fail>,
+    /// appended to every UTF-8 payload (given the op index): lets a property plant markers
+    pub suffix: Option<fn(usize) -> String>,
 }
 
 fn err_kind(e: &MemvidError) -> String {
@@ -333,6 +335,7 @@ impl Exec {
             committed_once: false,
             predicted: BTreeMap::new(),
             soft: Vec::new(),
+            suffix: None,
         })
     }
 
@@ -434,7 +437,10 @@ impl Exec {
         }
         match op {
             Op::Put(spec) => {
-                let bytes = self.expand_payload(&spec.payload);
+                let mut bytes = self.expand_payload(&spec.payload);
+                if let (Some(sfx), true) = (self.suffix, std::str::from_utf8(&bytes).is_ok()) {
+                    bytes.extend_from_slice(sfx(op_index).as_bytes());
+                }
                 let (mut opts, uri, title) = self.put_options(spec, op_index);
                 let mut role = FrameRole::Document;
                 if let Some(t) = spec.role_image_of {
@@ -528,7 +534,12 @@ impl Exec {
                 }
                 let old = cands[pick_index(u.target, cands.len())];
                 let old_id = self.model.docs[old].frame_id.unwrap();
-                let new_payload = u.payload.as_ref().map(|p| self.expand_payload(p));
+                let mut new_payload = u.payload.as_ref().map(|p| self.expand_payload(p));
+                if let (Some(sfx), Some(b)) = (self.suffix, new_payload.as_mut()) {
+                    if std::str::from_utf8(b).is_ok() {
+                        b.extend_from_slice(sfx(op_index).as_bytes());
+                    }
+                }
                 let emb = u.emb.map(|s| gen::embedding(s, self.dim));
                 let mut opts = PutOptions::default();
                 opts.instant_index = false;
